@@ -208,6 +208,10 @@ def hyp_generate(ctx, strategy, run_case, max_examples, tag='main',
         return t
 
     n_done = [0]
+    inner_run_case = run_case
+
+    def run_case(case):
+        return with_timeout(inner_run_case, case, ctx)
 
     def body(case):
         if ctx.out_of_time():
@@ -252,6 +256,36 @@ def hyp_generate(ctx, strategy, run_case, max_examples, tag='main',
             if size <= ctx.buckets[b]['size']:
                 ctx.buckets[b].update(case=case, detail=detail, size=size,
                                       shrunk=True)
+
+
+class CaseTimeout(BaseException):
+    pass
+
+
+def with_timeout(fn, case, ctx, seconds=None):
+    """Run one case under a watchdog.  A case that does not finish is not a
+    violation of any listed property (none is a liveness property): it is
+    discarded as 'timeout' and written into the notes."""
+    import signal
+    seconds = int(seconds or os.environ.get('NV_CASE_TIMEOUT', '60'))
+
+    def handler(signum, frame):
+        raise CaseTimeout()
+
+    old = signal.signal(signal.SIGALRM, handler)
+    signal.alarm(seconds)
+    try:
+        return fn(case)
+    except CaseTimeout:
+        r = Result()
+        r.discard = 'timeout'
+        if len(ctx.notes) < 5:
+            ctx.notes.append('case timed out after %ds: %s' % (
+                seconds, canon(case)[:1500]))
+        return r
+    finally:
+        signal.alarm(0)
+        signal.signal(signal.SIGALRM, old)
 
 
 # --------------------------------------------------------------------------
